@@ -4,7 +4,8 @@ ordered-choice / longest-match commitment of its own.  Used only as the second r
 "is this token string a well-formed interface file?"."""
 
 BASIC = {"void", "bool", "unsigned char", "char", "int", "size_t", "double", "float"}
-RESERVED = BASIC | {"virtual", "class", "template", "const", "pair", "static", "operator", "enum", "enum class",
+# (`pair` is not reserved: outside the head of a return type it is an ordinary name — `const std::pair<int, double>& p`)
+RESERVED = BASIC | {"virtual", "class", "template", "const", "static", "operator", "enum", "enum class",
                     "enum struct", "typedef", "namespace", "#include", "std::"}
 OPS = {"+", "-", "*", "/", "%", "^", "&", "|", "+=", "-=", "*=", "/=", "%=", "^=", "&=", "|=", "<<", "<<=", ">>",
        ">>=", "==", "!=", "<", ">", "<=", ">=", "()", "[]"}
